@@ -52,7 +52,7 @@ func profiles() map[string]world.Profile {
 		"ListRules": 4, "ProcessEvent": 12, "BadRequest": 8}
 	expiryRules := map[string]int{"AddRule": 22, "RemRule": 4, "ProcessEvent": 40, "Sleep": 10, "Reload": 4, "GetRule": 4,
 		"ListRules": 3, "SearchRules": 5, "AddFact": 3}
-	cronw := map[string]int{"AddRule": 26, "RemRule": 8, "RemFact": 6, "AddFact": 12, "EnableRule": 5, "Clear": 2, "Tick": 22,
+	cronw := map[string]int{"AddRule": 26, "RemRule": 8, "RemFact": 6, "AddFact": 12, "EnableRule": 10, "Clear": 2, "Tick": 22,
 		"ProcessEvent": 6, "ListRules": 2, "Restart": 4, "GetRule": 3}
 	ids := []string{"f1", "f2", "f3"}
 	return map[string]world.Profile{
